@@ -100,6 +100,8 @@ func (grw *GzipResponseWriter) Close() {
 	if grw.gzipWriter != nil {
 		grw.gzipWriter.Close()
 		gzipWriterPool.Put(grw.gzipWriter)
+		// the compressor is returned only once, also when Close is called again
+		grw.gzipWriter = nil
 	}
 }
 
